@@ -192,3 +192,57 @@ def run_values(job):
             o["krylov_error"] = float(mol.Krylov_Error[k]) if torch.is_tensor(getattr(mol, "Krylov_Error", None)) else -1.0
         out[nm] = o
     return out
+
+
+def run_relabel(job):
+    """Same-element relabelling: the atoms of equal atomic number of every molecule are permuted (rows stay sorted by atomic
+    number); scalars must not change, per-atom outputs must follow the permutation."""
+    mdlib.use_stub(False)
+    from harness import common
+
+    common.quiet_stdio()
+    import random
+
+    from seqm.ElectronicStructure import Electronic_Structure
+    from seqm.Molecule import Molecule
+    from seqm.seqm_functions.constants import Constants
+
+    params = mdlib.seqm_params(**job.get("params", {}))
+    sp, xyz, q, mult = scf_driver.build_batch(job["mols"], displace=0.1)
+    rng = random.Random(job.get("seed", 0))
+    perm = []
+    for m in range(sp.shape[0]):
+        idx = list(range(sp.shape[1]))
+        for z in set(int(v) for v in sp[m] if v > 0):
+            pos = [i for i in idx if int(sp[m, i]) == z]
+            sh = pos[:]
+            if len(pos) > 1:
+                while sh == pos:
+                    rng.shuffle(sh)
+            for a, b in zip(pos, sh):
+                idx[a] = b
+        perm.append(idx)
+    P = torch.tensor(perm)
+    xyz2 = torch.stack([xyz[m][P[m]] for m in range(sp.shape[0])])
+    res = []
+    for coords in (xyz, xyz2):
+        pp = dict(params)
+        mol = Molecule(Constants(), pp, coords.clone(), sp.clone(), charges=q, mult=mult)
+        mol.verbose = False
+        es = Electronic_Structure(pp)
+        es(mol)
+        res.append(mol)
+    a, b = res
+    out = {"moved": int(sum(1 for m in range(len(perm)) for i, j in enumerate(perm[m]) if i != j))}
+    out["Etot"] = float((a.Etot - b.Etot).abs().max())
+    out["gap"] = float((a.e_gap - b.e_gap).abs().max())
+    out["e_mo"] = float((a.e_mo - b.e_mo).abs().max())
+    fa = torch.stack([a.force[m][P[m]] for m in range(sp.shape[0])])
+    qa = torch.stack([a.q[m][P[m]] for m in range(sp.shape[0])])
+    out["force"] = float((fa - b.force).abs().max())
+    out["q"] = float((qa - b.q).abs().max())
+    if a.dipole is not None:
+        out["dipole"] = float((a.dipole - b.dipole).abs().max())
+    if a.cis_energies is not None:
+        out["cis"] = float((a.cis_energies - b.cis_energies).abs().max())
+    return out
